@@ -379,6 +379,9 @@ func emit(l *logger.Logger, r *record) {
 		// Panic logs at LevelError and then panics with the message
 		func() {
 			defer func() {
+				if simrt.Killing() {
+					return // the run is being unwound: nothing was raised
+				}
 				if p := recover(); p != msg {
 					panic(fmt.Sprintf("Logger.Panic raised %v, want %q", p, msg))
 				}
@@ -393,7 +396,23 @@ func run(ch simrt.Chooser, prop string, keep bool) *kit.Outcome {
 	res := simrt.Run(simrt.RunConfig{KeepLog: keep, StepCap: 300000}, ch, w.main)
 	o := &kit.Outcome{Res: res, Viol: w.viol}
 	if res.End != "ok" {
-		o.Infra = "run ended with " + res.End + ": " + strings.Join(res.Blocked, "; ")
+		// a log call that never returns: tasks blocked for good inside the logger
+		// (a lock of the package that nobody will release any more)
+		inLogger := ""
+		for _, b := range res.Blocked {
+			if res.End == "deadlock" && strings.Contains(b, " @ logger/") {
+				inLogger = b
+				break
+			}
+		}
+		if inLogger != "" {
+			site := inLogger[strings.Index(inLogger, " @ ")+3:]
+			for _, p := range []string{"C02", "C03"} {
+				o.Viol = append(o.Viol, kit.Violation{Prop: p, Class: "log-call-never-returns", Detail: fmt.Sprintf("the run cannot go on: %d task(s) are blocked for good, among them %s (the destination has seen %d Write calls); their records never reach it", len(res.Blocked), inLogger, len(w.writes)), Sig: "log-call-never-returns " + site, Seq: simrt.Seq()})
+			}
+		} else {
+			o.Infra = "run ended with " + res.End + ": " + strings.Join(res.Blocked, "; ")
+		}
 	}
 	for _, r := range res.Races {
 		s := []string{r.Site1, r.Site2}
